@@ -112,6 +112,19 @@ def build(rng, tier):
                     inst = f"{pid}_{j}_{k}"
                     ops = [f"eng new {inst} {pid} par {t}"] + engcheck.load_ops(inst, inp) + [f"eng runtopp {inst} {k} {t}", f"eng dump {inst}", f"eng runpp {inst} {t}", f"eng dump {inst}"]
                     cases.append(engcheck.Case(pid, inst, ops, {"inp": inp, "kind": "par-single", "k": k, "threads": t}))
+        # ... on stratified programs with aggregation / negation (the parallel model evaluates aggregation items through the concurrent indices)
+        for i, p in enumerate(engcheck.make_programs(rng.fork("c14aggpar"), 3 if tier == "quick" else 12, genf=gen.gen_agg_program, filt=eng.stratifiable)):
+            pid = f"tpa{i}"
+            progs[pid] = p
+            mods.append((pid, eng.rs_module(pid, p, macro="ascent_par", attrs=("generate_run_timeout",))))
+            for j in range(2 if tier == "quick" else 6):
+                r2 = rng.fork(f"{pid}t{j}")
+                inp = gen.nodup_input(r2, p, max_rows=8)
+                t = r2.choice([1, 2, 3, 4, 8])
+                for k in range(MAXK if tier != "quick" else 8):
+                    inst = f"{pid}_{j}_{k}"
+                    ops = [f"eng new {inst} {pid} par {t}"] + engcheck.load_ops(inst, inp) + [f"eng runtopp {inst} {k} {t}", f"eng dump {inst}", f"eng runpp {inst} {t}", f"eng dump {inst}"]
+                    cases.append(engcheck.Case(pid, inst, ops, {"inp": inp, "kind": "par-agg-single", "k": k, "threads": t}))
     # ... and with LATTICES: Model/EnginePhysParLatTimeout.lean, `eng runtoppl <inst> <k> <threads>` then `eng runppl`
     if os.path.exists(os.path.join(core.LEAN, "AscentVerif", "Model", "EnginePhysParLatTimeout.lean")):
         for i, p in enumerate(engcheck.make_programs(rng.fork("c14latpar"), 3 if tier == "quick" else 12, genf=gen.gen_lat_program, filt=gen.lat_ok)):
